@@ -144,3 +144,15 @@ LOOPS[K + 'permute_block_swap'] = {0: dict(
                'seq_inv(outseq), Or(outseq.dmax == -1, outseq.dmax == self.dmax)))'],
     witness={1: ['min(blocks_to_swap[0])', 'min(blocks_to_swap[1])', 'max(blocks_to_swap[0]) - min(blocks_to_swap[0])']},
     variant='(100 - it,)')}
+
+
+# ----------------------------------------------------------------------------- C17.f / C18: what the Wang-Landau loop relies on
+# "the delta-max handed from parent to child is the child's own" needs count preservation under each rearrangement, which is not mechanised
+# (C17: bounded native check).  Callers may use it as an ASSUMED clause; it is reported as an assumption wherever it is used.
+for _mv in ('swapRandChargeRes', 'full_shuffle', 'permute_block_swap'):
+    CONTRACT[K + _mv]['assumed_ensures'] = ['dmax_inv(result)']
+# the charge-clustering move is not under contract (pop(0)/filter comprehensions over index lists): ASSUMED contract, bounded native check only
+CONTRACT[K + 'permute_cluster_charges'] = dict(
+    self=mk_sequence(), params={'frozen': 'set[int]'}, raises=[], may_raise=[('SequenceException', 'True'), ('ValueError', 'True')],
+    modifies=[], returns=new_sequence_obj, trusted=True,
+    ensures=['result.len == self.len'] + CHILD_OK, assumed_ensures=['dmax_inv(result)'])
